@@ -132,6 +132,93 @@ def _wn_general(test, ev):
     return None
 
 
+_PI_LO, _PI_HI = F.const(31415926535) / F.const(10 ** 10), F.const(31415926536) / F.const(10 ** 10)
+DOMAIN_MAX_SR_OVER_FN = 2000          # properties.jsonl: "sr/fn within the range where the ramp-invariant coefficients are well conditioned (<= 2000)"
+
+
+def _threshold_test(test, ev):
+    """`T < c` / `T <= c` / `c > T` / `c >= T` (or the opposite orientation) with c a positive constant and T = r * wn, r free of wn: a regime boundary at a
+    *small but positive* frequency.  -> (T, c, small_is_true) or None"""
+    if not (isinstance(test, ast.Compare) and len(test.ops) == 1 and isinstance(test.ops[0], (ast.Lt, ast.LtE, ast.Gt, ast.GtE))):
+        return None
+    a, b = ev.ev(test.left), ev.ev(test.comparators[0])
+    if any(v is None or is_unknown(v) or isinstance(v, (tuple, DictValue)) for v in (a, b)):
+        return None
+    less = isinstance(test.ops[0], (ast.Lt, ast.LtE))
+    for T, c, small in ((a, b, less), (b, a, not less)):
+        if c.is_const() and c.const_value() > 0 and not T.is_const():
+            u = unfn(T)
+            if u and u[0] == "abs" and len(u[1]) == 1 and not isinstance(u[1][0], str):
+                T = u[1][0]
+            r = T / F.sym("<wn>")
+            if not r.is_zero() and not X.depends(r, "<wn>"):
+                return T, c, small
+    return None
+
+
+def _positive_factor(r):
+    """r (free of wn) is positive for every dT > 0 and Q > 0.5: a positive constant times powers of dT and of sqrt(1 - zeta^2)"""
+    zeta = F.sym("<zeta>")
+    sqz = F.sqrt(1 - zeta * zeta)
+    for p in (0, 1, -1, 2):
+        for q in (0, 1, -1, 2):
+            f = r / (F.sym("<dT>") ** p) / (sqz ** q)
+            if f.is_const() and f.const_value() > 0:
+                return True
+    return False
+
+
+def _sign_test(test, ev):
+    """`wn <= 0`, `wn > 0`, `0 < B`, ... in the general regime (wn > 0): an order comparison of r * wn (r positive) with zero is decided"""
+    if not (isinstance(test, ast.Compare) and len(test.ops) == 1 and isinstance(test.ops[0], (ast.Lt, ast.LtE, ast.Gt, ast.GtE))):
+        return None
+    a, b = ev.ev(test.left), ev.ev(test.comparators[0])
+    if any(v is None or is_unknown(v) or isinstance(v, (tuple, DictValue)) for v in (a, b)):
+        return None
+    greater = isinstance(test.ops[0], (ast.Gt, ast.GtE))
+    for T, z, g in ((a, b, greater), (b, a, not greater)):
+        if z.is_zero() and not T.is_const():
+            r = T / F.sym("<wn>")
+            if not X.depends(r, "<wn>") and _positive_factor(r):
+                return g            # T > 0 holds, T < 0 / T <= 0 do not
+    return None
+
+
+def _admits_domain(T, c):
+    """can `T < c` hold for an oscillator of the documented domain (wn > 0, Q > 0.5, sr/fn <= 2000, i.e. wn*dT >= 2*pi/2000)?  True / False / None"""
+    zeta = F.sym("<zeta>")
+    R = T / (F.sym("<wn>") * F.sym("<dT>"))
+    sqz = F.sqrt(1 - zeta * zeta)
+    for form, inf_zero in ((R, False), (R / sqz, True), (R * F.sym("<dT>"), True), (R * F.sym("<dT>") / sqz, True)):
+        if form.is_const() and form.const_value() > 0:
+            if inf_zero:
+                return True           # the factor sqrt(1 - zeta^2) (Q -> 0.5) or the free step dT brings T below any positive bound inside the domain
+            lim = c * (DOMAIN_MAX_SR_OVER_FN // 2) / form              # T < c  <=>  wn*dT < c/k; in the domain wn*dT >= pi/1000
+            if (lim - _PI_HI).is_const() and (lim - _PI_HI).const_value() >= 0:
+                return True
+            if (lim - _PI_LO).is_const() and (lim - _PI_LO).const_value() <= 0:
+                return False
+    return None
+
+
+def _wn_regime(seen, force=None):
+    """oracle of the general regime (wn a positive symbol) that also settles threshold tests on wn: by default the arm for the larger frequencies is taken
+    (the test is noted in `seen`); `force` = id of a test node whose small-frequency arm is to be taken instead"""
+    def cond(test, ev):
+        r = _wn_general(test, ev)
+        if r is not None:
+            return r
+        th = _threshold_test(test, ev)
+        if th is None:
+            return _sign_test(test, ev)
+        T, c, small = th
+        if not any(t is test for t, _T, _c, _s in seen):
+            seen.append((test, T, c, small))
+        take_small = force is not None and force == id(test)
+        return small if take_small else not small
+    return cond
+
+
 def _vector(S_, v, what):
     if isinstance(v, tuple):
         return v
@@ -206,7 +293,13 @@ def extract_filter(ctx, stype, zero):
     return r
 
 
-def _extract_filter(ctx, stype, zero):
+def threshold_arms(ctx, stype):
+    """the threshold tests on wn met while the general branch of the coefficient function `stype` was extracted: [(test node, T, c, small_is_true)]"""
+    extract_filter(ctx, stype, zero=False)
+    return ctx.__dict__.setdefault("_c03_thresholds", {}).get(stype, [])
+
+
+def _extract_filter(ctx, stype, zero, force=None):
     fn = ctx.src.func(SRS, stype)
     params = [a.arg for a in fn.args.posonlyargs + fn.args.args]
     if len(params) < 3:
@@ -214,7 +307,10 @@ def _extract_filter(ctx, stype, zero):
     # the seeds are not Python identifiers: a free name of the source (an unbound `zeta`, say) can never be mistaken for one of them
     zeta = F.sym("<zeta>")
     env = {params[0]: 1 / (2 * zeta), params[1]: F.sym("<dT>"), params[2]: F.const(0) if zero else F.sym("<wn>")}
-    S_ = Sem3(ctx, fn, SRS, cond=None if zero else _wn_general, env=env, hooks=(_coef_hook,), sub_hooks=(_coef_sub,))
+    seen = []
+    S_ = Sem3(ctx, fn, SRS, cond=None if zero else _wn_regime(seen, force), env=env, hooks=(_coef_hook,), sub_hooks=(_coef_sub,))
+    if not zero and force is None:
+        ctx.__dict__.setdefault("_c03_thresholds", {})[stype] = seen
     if not S_.ev.returns:
         raise AnchorError(f"{stype}: no return")
     ret = S_.ret()
@@ -262,6 +358,32 @@ def r1_filters(ctx):
             ok = (b[i] * ra[0]).equals(rb[i] * a[0])
             ctx.check(ok, f"{st}: b[{i}] equals the ramp-invariant coefficient derived from the ODE", fn,
                       None if ok else {"code": repr(b[i]), "derived": repr(rb[i])})
+        # an arm selected by a threshold on the frequency (`B < 5e-3`) rather than by wn == 0: where the test can hold for an oscillator of the documented
+        # domain (wn > 0, sr/fn <= 2000) the arm must return the ramp-invariant coefficients too - a limiting-case formula is exact at wn == 0 only
+        for test, T, c, _small in threshold_arms(ctx, st):
+            adm = _admits_domain(T, c)
+            what = f"{st}: the arm selected by a threshold on the frequency returns the ramp-invariant coefficients wherever it is taken inside the documented domain"
+            if adm is None:
+                ctx.error(what + " - not decided: whether the test can hold inside the domain", test, {"quantity": repr(T), "bound": repr(c)})
+                continue
+            if not adm:
+                ctx.ok(what + " (the threshold lies outside the domain: only wn == 0 selects the arm)", test)
+                continue
+            try:
+                b2, a2, _fn = _extract_filter(ctx, st, zero=False, force=id(test))
+            except Unsupported as e:
+                ctx.error(what + " - not decided", test, str(e))
+                continue
+            bad = {}
+            if len(b2) != 3 or len(a2) != 3:
+                bad["shape"] = [len(b2), len(a2)]
+            else:
+                for i in range(3):
+                    if not (a2[i] * ra[0]).equals(ra[i] * a2[0]):
+                        bad[f"a[{i}]"] = {"code": repr(a2[i]), "derived": repr(ra[i])}
+                    if not (b2[i] * ra[0]).equals(rb[i] * a2[0]):
+                        bad[f"b[{i}]"] = {"code": repr(b2[i]), "derived": repr(rb[i])[:300]}
+            ctx.check(not bad, what, test, dict(bad, test_holds_for={"quantity": repr(T), "below": repr(c)}) if bad else None)
 
 
 def _polymul(p, q):
